@@ -37,7 +37,7 @@ fn meta() -> Meta {
     Meta {
         id: "C09",
         level: "model_checking",
-        rule: "every sequence up to the depth bound of (clock step, write) with steps {0, +1 s, +2 s, +1 min, +1 h, +1 day, +31 days (same day of next month), +365 days (same date next year), +40 days}, from 7 base instants (mid-period, 2 s before a minute / hour / month+day / year boundary, and 0.4 s before a minute / day boundary), for Age{Second,Minute,Hour,Day} x naming x start {fresh, append onto a current file of the same period, of an earlier period, onto an empty one of an earlier period} x {Age, AgeOrSize huge, AgeOrSize small} x {TZ UTC, Asia/Kolkata, Asia/Kolkata+use_utc, America/St_Johns}; states = distinct (configuration, partition shape) reached; non-trivial = at least one age rotation predicted; two more base instants lie 0.4 s before a minute / day boundary; the seeded current file is over the limit for AgeOrSize(small); a fourth start state appends onto an empty current file of an earlier period; a seventh naming whose names do not sort chronologically (day first), and a start state with an older file besides the current one",
+        rule: "every sequence up to the depth bound of (clock step, write) with steps {0, +1 s, +2 s, +1 min, +1 h, +1 day, +31 days (same day of next month), +365 days (same date next year), +40 days}, from 7 base instants (mid-period, 2 s before a minute / hour / month+day / year boundary, and 0.4 s before a minute / day boundary), for Age{Second,Minute,Hour,Day} x naming x start {fresh, append onto a current file of the same period, of an earlier period, onto an empty one of an earlier period} x {Age, AgeOrSize huge, AgeOrSize small} x {TZ UTC, Asia/Kolkata, Asia/Kolkata+use_utc, America/St_Johns}; states = distinct (configuration, partition shape) reached; non-trivial = at least one age rotation predicted; two more base instants lie 0.4 s before a minute / day boundary; the seeded current file is over the limit for AgeOrSize(small); a fourth start state appends onto an empty current file of an earlier period; a seventh naming whose names do not sort chronologically (day first), and a start state with an older file besides the current one; for the fresh start and the same-period start with criterion Age every word is also run with the clock steps taking place while the record is rendered (after the format function took the record's timestamp): the criterion is the clock at the write",
         assumptions: vec![
             "the clock seam (guarded hook) replaces Local::now() and the creation-time lookup; a real-time Age::Second run without the hook cross-checks the file-metadata path (thorough tier)".into(),
             "no write instants inside a DST fall-back hour".into(),
@@ -89,6 +89,9 @@ struct Case {
     /// 0 Age, 1 AgeOrSize(huge), 2 AgeOrSize(small)
     crit: u8,
     base: usize,
+    /// the clock steps happen while the record is rendered (after its timestamp was taken) instead
+    /// of before the log call: the criterion looks at the clock when the record is written
+    slow: bool,
 }
 
 fn period(a: AgeK, t: &DateTime<Local>) -> (i32, u32, u32, u32, u32, u32) {
@@ -170,7 +173,9 @@ fn run_word(c: &Case, steps: &[i64]) -> Result<(Vec<usize>, usize), (String, Str
     let mut h = Hist::new(&env, cfg.clone());
     let mut t = base;
     for (i, d) in steps.iter().enumerate() {
-        h.apply(HOp::T(*d)).ok();
+        if !c.slow {
+            h.apply(HOp::T(*d)).ok();
+        }
         t = t + chrono::Duration::seconds(*d);
         // reference
         let rotate = match pred.files.last() {
@@ -188,7 +193,7 @@ fn run_word(c: &Case, steps: &[i64]) -> Result<(Vec<usize>, usize), (String, Str
             pred.files.push((t, Vec::new()));
             cur_size = 0;
         }
-        h.apply(HOp::W(LINE)).map_err(|e| ("op-error".to_string(), format!("write {i}: {e:?}")))?;
+        h.apply(if c.slow { HOp::WSlow(LINE, *d) } else { HOp::W(LINE) }).map_err(|e| ("op-error".to_string(), format!("write {i}: {e:?}")))?;
         let line = h.accepted.last().unwrap();
         pred.files.last_mut().unwrap().1.push(String::from_utf8_lossy(&line[..line.len() - ending.len()]).to_string());
         cur_size += line.len() as u64;
@@ -318,7 +323,7 @@ fn run_unit(tier: &str, unit: usize, out: &mut Out) {
     let d = depth(tier);
     for start in 0..5u8 {
         for crit in 0..3u8 {
-            for base in 0..bases().len() {
+            for (base, slow) in (0..bases().len()).map(|b| (b, false)).chain((start < 2 && crit == 0).then_some((0, true))) {
                 let c = Case {
                     tz,
                     use_utc,
@@ -327,13 +332,14 @@ fn run_unit(tier: &str, unit: usize, out: &mut Out) {
                     start,
                     crit,
                     base,
+                    slow,
                 };
                 for_each_word(STEPS.len(), d, |w| {
                     if w.is_empty() {
                         return;
                     }
                     let steps: Vec<i64> = w.iter().map(|i| STEPS[*i]).collect();
-                    let case = json!({"unit": unit, "start": start, "crit": crit, "base": base, "steps": steps});
+                    let case = json!({"unit": unit, "start": start, "crit": crit, "base": base, "slow": slow, "steps": steps});
                     let (v, r) = judge(&c, &steps, case.clone());
                     out.evaluations += 1;
                     out.traces_validated += 1;
@@ -501,6 +507,7 @@ fn replay(case: &Value) -> Vec<Violation> {
         start: case["start"].as_u64().unwrap_or(0) as u8,
         crit: case["crit"].as_u64().unwrap_or(0) as u8,
         base: case["base"].as_u64().unwrap_or(0) as usize,
+        slow: case["slow"].as_bool().unwrap_or(false),
     };
     let steps: Vec<i64> = case["steps"].as_array().into_iter().flatten().filter_map(Value::as_i64).collect();
     println!("replay C09: {c:?} base {} steps {steps:?}", bases()[c.base]);
